@@ -195,7 +195,7 @@ def one_run(rec, lib, rnd, d, dir_mode, st, inproc):
             rec.count("skipped:strace unavailable")
         else:
             rec.count("strace_runs")
-    rec.ev()
+    rec.ev(len(files))
     rec.count("runs_judged")
     if dir_mode:
         rec.count("dir_mode_runs")
